@@ -18,7 +18,7 @@ from . import c17
 
 PID = 'C18'
 
-MODES = ['spawn', 'exit-before', 'exit-half', 'exit-after', 'segv-before', 'segv', 'kill']
+MODES = ['spawn', 'exit-before', 'exit-half', 'exit-after', 'segv-before', 'segv', 'kill', 'term']
 LAST = {'E': drv.PP, 'emit-qbe': drv.CC, 'S': drv.QBE, 'c': drv.AS, 'link': drv.LD}
 INPUTS = {'c': 'a%d.c', 'cppout': 'p%d.i', 'qbe': 'q%d.qbe', 'asm': 's%d.s', 'asmpp': 't%d.S', 'obj': 'o%d.o'}
 
